@@ -1232,9 +1232,10 @@ class Interleaved(_CHarness):
   max_clock = 2500.0
 
   def __init__(self, total=4, batch=2, fuse=True, pool=False, W=1, buf=0,
-               nworkers=None, mode='preempt', pause=False):
+               nworkers=None, mode='preempt', pause=False, menu=()):
     self.params = dict(total=total, batch=batch, fuse=fuse, pool=pool, W=W,
-                       buf=buf, nworkers=nworkers, mode=mode, pause=pause)
+                       buf=buf, nworkers=nworkers, mode=mode, pause=pause,
+                       menu=list(menu))
     if pause:
       self.pause_focus = ('iterate_with_worker_pool', 'iterate_in_process',
                           'wait', 'wait_and_maybe_raise')
@@ -1260,6 +1261,8 @@ class Interleaved(_CHarness):
         master = m.courier_server.CourierServer('master', clients=('host',))
       pipeline = fx.sharded_pipeline(p['total'], p['batch'], fuse=p['fuse'],
                                      num_threads=0)
+      if p['menu']:
+        fake_courier.NET.menu = {'maybe_make': list(p['menu'])}
       res = {'datasource': m.orchestrate.RunnerResource(buffer_size=p['buf'])}
       if pool is not None:
         kw = {}
@@ -1279,6 +1282,7 @@ class Interleaved(_CHarness):
         raise
       except BaseException as e:  # pylint: disable=broad-except
         self.end = ('exc', e)
+      fake_courier.NET.menu = {}
       if pool is not None:
         self.after = dict(
             acquired=[w.address for w in pool.acquired_workers],
